@@ -67,7 +67,7 @@ Definition expand_noop (t : Z) (din dout : db) : bool :=
 Definition safe_op (rb : list op) (din dout : db) (o : op) : bool :=
   match o with
   | OAdd w status t n init slot => (t <? 0) && cleans rb status
-  | OExpand mode t => expand_noop t din dout
+  | OExpand mode t _ => expand_noop t din dout
   | OClean _ => true
   | OBody _ => true
   | _ => false
@@ -75,9 +75,10 @@ Definition safe_op (rb : list op) (din dout : db) (o : op) : bool :=
 Definition only_clean (o : op) : bool := match o with OClean _ => true | _ => false end.
 (* operations of _postprocess that cannot report a failure *)
 Definition cannot_fail (o : op) : bool :=
-  match o with OAdd _ _ _ _ _ _ => false | OAddUnreg _ _ _ _ _ => false | OExpand _ _ => false | _ => true end.
+  match o with OAdd _ _ _ _ _ _ => false | OAddUnreg _ _ _ _ _ => false | OExpand _ _ _ => false | OFail => false | _ => true end.
 
 Definition wf_atomic (c : calc) (din dout : db) : bool :=
+  is_nil (k_init c) &&
   forallb (safe_op (k_rollback c) din dout) (k_pre c) &&
   forallb (safe_op (k_rollback c) din dout) (k_run c) &&
   forallb cannot_fail (k_post c) &&
@@ -96,7 +97,7 @@ Definition slot_ok (pre : list op) (w : which) (slot : nat) : bool :=
 Definition safe_pre_s (din dout : db) (o : op) : bool :=
   match o with
   | OAdd _ _ t _ _ _ => t <? 0
-  | OExpand _ t => expand_noop t din dout
+  | OExpand _ t _ => expand_noop t din dout
   | _ => false
   end.
 Definition only_body (o : op) : bool := match o with OBody _ => true | _ => false end.
@@ -107,6 +108,7 @@ Definition safe_post_s (pre : list op) (o : op) : bool :=
   | _ => false
   end.
 Definition wf_success (c : calc) (din dout : db) : bool :=
+  is_nil (k_init c) &&
   forallb (safe_pre_s din dout) (k_pre c) && forallb only_body (k_run c) &&
   forallb (safe_post_s (k_pre c)) (k_post c) && cleans (k_post c) 2.
 
